@@ -8,7 +8,7 @@ From Coq Require Import List Arith NArith Bool String Ascii.
 From GIV.Lib Require Import Regex Str.
 From GIV.Gen Require Import AnnNames.
 From GIV.Model Require Import C02 C10 C10B C10BSpec.
-From GIV.Proofs Require Import C10 C10L.
+From GIV.Proofs Require Import C10 C10L C10N.
 Import ListNotations.
 Local Open Scope N_scope.
 
@@ -97,3 +97,23 @@ Theorem C10_block_line_endings : forall sep1 sep2 ls lineno,
   parse_block (join_lines sep1 ls) lineno = parse_block (join_lines sep2 ls) lineno.
 Proof. exact parse_block_line_endings. Qed.
 Print Assumptions C10_block_line_endings.
+
+(* "any indentation in front of the asterisks": the line loop arrives at the same block, the same part in progress and the same
+   flags (everything but block.indentation, which records the blanks, and the diagnostics, which quote the lines) whatever blanks
+   stand in front of each line's asterisk - they may differ from line to line.  By symbolic evaluation of COMMENT_ASTERISK_RE
+   (Proofs/C10N.asterisk_match) and the fact that no function of the parser looks at the quoted line or the column it is given
+   except to report. *)
+Theorem C10_indentation_independent : forall cb ca bl rests inds1 inds2 ln st1 st2,
+  List.length inds1 = List.length rests -> List.length inds2 = List.length rests ->
+  Forall blanks inds1 -> Forall blanks inds2 -> Forall no_lf rests -> lst_c st1 = lst_c st2 ->
+  lst_c (run_lines cb ca bl ln (asterisk_lines inds1 rests) st1) = lst_c (run_lines cb ca bl ln (asterisk_lines inds2 rests) st2).
+Proof. exact run_lines_indent_independent. Qed.
+Print Assumptions C10_indentation_independent.
+
+(* what COMMENT_ASTERISK_RE does with  <blanks> * <text> : it matches, finds no stray text, and ends behind the asterisk and at most
+   one blank *)
+Theorem C10_asterisk_prefix : forall ind rest, Forall (fun x => cls_mem sp_cls x = true) ind ->
+  Backtrack.bmatch BlockRegex.re_asterisk (ind ++ 42 :: rest)
+  = Some [(0, (0, List.length ind + 1 + delta rest)); (BlockRegex.g_asterisk_comment, (List.length ind, List.length ind))]%nat.
+Proof. exact asterisk_match. Qed.
+Print Assumptions C10_asterisk_prefix.
